@@ -21,10 +21,15 @@ const (
 //
 //	Kind ""        no fault
 //	Kind "dial"    the stream dial fails (nothing reaches the host)
+//	Kind "txpool"  the renter's transaction pool fails to produce the parent
+//	               set after the renter funded (nothing reaches the host)
 //	Kind "cut"     the connection breaks instead of delivering message Index
 //	               of direction Dir (the sender "stops at that boundary")
 //	Kind "corrupt" message Index of direction Dir is decoded, changed by
 //	               mutation Mut/A and re-encoded; everything else is verbatim
+//	Kind "advance" not a fault of the exchange: while message Index of
+//	               direction Dir is in flight the host's chain grows by A
+//	               blocks (the message is then delivered unchanged)
 type Fault struct {
 	Kind  string `json:"kind,omitempty"`
 	Dir   int    `json:"dir,omitempty"`
@@ -86,6 +91,8 @@ type MITM struct {
 	// Mutate changes a decoded message in place; it reports false when it
 	// does not know the mutation for this message.
 	Mutate func(dir, idx int, msg proto4.Object, f Fault) bool
+	// Hook is called for Kind "advance" while the message is held back.
+	Hook func()
 
 	mu        sync.Mutex
 	Seen      [2]int // messages fully forwarded per direction
@@ -111,7 +118,7 @@ func (m *MITM) Status() (seen [2]int, applied bool, hostErr, harness string) {
 // n == stream; other streams pass untouched.
 func (m *MITM) Interpose(stream int) func(n int, client, server net.Conn) (net.Conn, net.Conn) {
 	return func(n int, client, server net.Conn) (net.Conn, net.Conn) {
-		if n != stream || m.Fault.Kind == "" || m.Fault.Kind == "dial" {
+		if n != stream || (m.Fault.Kind != "cut" && m.Fault.Kind != "corrupt" && m.Fault.Kind != "advance") {
 			return client, server
 		}
 		// client <-> mc | ms <-> server
@@ -160,7 +167,11 @@ func (m *MITM) pump(dir int, src, dst net.Conn, closeAll func()) {
 			if m.Fault.Kind == "cut" {
 				return
 			}
-			if m.Mutate == nil || !m.Mutate(dir, idx, obj, m.Fault) {
+			if m.Fault.Kind == "advance" {
+				if m.Hook != nil {
+					m.Hook()
+				}
+			} else if m.Mutate == nil || !m.Mutate(dir, idx, obj, m.Fault) {
 				m.note(func() {
 					m.Harness = fmt.Sprintf("MITM: unknown mutation %q for %s message dir=%d idx=%d (%T)", m.Fault.Mut, m.Ex.Name, dir, idx, obj)
 				})
@@ -265,6 +276,11 @@ func FormationMutate(dir, idx int, msg proto4.Object, f Fault) bool {
 			*rq.inputs = nil
 		case "parents-drop":
 			*rq.parents = nil
+		case "parent-sig-flip":
+			// only effective when the renter's funds are unconfirmed
+			if ps := *rq.parents; len(ps) > 0 && len(ps[0].SiacoinInputs) > 0 && len(ps[0].SiacoinInputs[0].SatisfiedPolicy.Signatures) > 0 {
+				ps[0].SiacoinInputs[0].SatisfiedPolicy.Signatures[0][5] ^= 1
+			}
 		case "prices-sig-flip":
 			rq.prices.Signature[9] ^= 1
 		case "proofheight+1":
@@ -286,6 +302,11 @@ func FormationMutate(dir, idx int, msg proto4.Object, f Fault) bool {
 		case "input-value+1":
 			if len(in) > 0 {
 				in[0].Parent.SiacoinOutput.Value = in[0].Parent.SiacoinOutput.Value.Add(oneH)
+			}
+		case "input-value-small":
+			// the host appears to fund less than its share
+			if len(in) > 0 {
+				in[0].Parent.SiacoinOutput.Value = oneH
 			}
 		case "input-id-flip":
 			if len(in) > 0 {
@@ -396,7 +417,7 @@ func FormationMutate(dir, idx int, msg proto4.Object, f Fault) bool {
 func FormationMuts(rpc string, dir, idx int) []string {
 	switch {
 	case dir == R2H && idx == 0:
-		l := []string{"allowance+1", "collateral+1", "minerfee+1", "basis-bogus", "basis-zero", "input-proof-flip", "input-value+1", "input-id-flip", "inputs-drop", "parents-drop", "prices-sig-flip"}
+		l := []string{"allowance+1", "collateral+1", "minerfee+1", "basis-bogus", "basis-zero", "input-proof-flip", "input-value+1", "input-id-flip", "inputs-drop", "parents-drop", "parent-sig-flip", "prices-sig-flip"}
 		if rpc != "refresh" {
 			l = append(l, "proofheight+1")
 		}
@@ -411,7 +432,7 @@ func FormationMuts(rpc string, dir, idx int) []string {
 		}
 		return l
 	case idx == 0:
-		return []string{"input-value+1", "input-id-flip", "inputs-drop", "input-sig-flip", "input-proof-flip"}
+		return []string{"input-value+1", "input-value-small", "input-id-flip", "inputs-drop", "input-sig-flip", "input-proof-flip"}
 	default:
 		l := []string{"payout", "missed-host-value", "contract-hostsig-flip", "set-empty", "set-drop-last", "aux-basis-flip", "aux-rentersig-flip", "aux-inputsig-flip"}
 		if rpc != "form" {
